@@ -437,6 +437,9 @@ func (p *lineParser) ContainerKind() BlockKind {
 func (p *lineParser) MorphSetext(level int) {
 	p.container.kind = SetextHeadingKind
 	p.container.n = level
+	// Remember where the underline's line starts (after any container markers)
+	// for onCloseParagraph, which runs when the heading is closed.
+	p.container.indent = p.lineStart + p.i
 }
 
 // TipKind returns the kind of the deepest open block.
@@ -1232,7 +1235,10 @@ func onCloseParagraph(source []byte, originalBlock *Block) []*Block {
 	contentStart := originalBlock.inlineChildren[0].Span().Start
 	var setextOrphanParagraph *Block
 	if originalBlock.Kind() == SetextHeadingKind {
-		blockStart := originalBlock.inlineChildren[len(originalBlock.inlineChildren)-1].Span().End
+		// The underline starts after the markers of the containers it is in,
+		// not at the beginning of the source line.
+		blockStart := originalBlock.indent
+		originalBlock.indent = 0
 		lineStart := blockStart
 		for source[lineStart] == ' ' || source[lineStart] == '\t' {
 			lineStart++
